@@ -133,14 +133,32 @@ theorem attr_sn_phys_energy (a : RadAttrSn.P) (hs : soundSpeed a.gamma a.Cv a.Tr
 
 /-! ### physical units: the equilibrium-diffusion solver end to end -/
 
+private theorem ed_node_Tm (q : RadED.P) : RadED.Tm1 q = q.T := by
+  epv_semi_rad_tree
+
+private theorem ed_node_Density (q : RadED.P) : RadED.Density1 q = edRho q.gamma q.P0 q.M0 q.T := by
+  epv_semi_rad_tree [edRho, edB]
+
+private theorem ed_node_Speed (q : RadED.P) : RadED.Speed1 q = q.M0 / edRho q.gamma q.P0 q.M0 q.T := by
+  epv_semi_rad_tree [edRho, edB]
+
+private theorem ed_node_Pressure (q : RadED.P) :
+    RadED.Pressure1 q = edRho q.gamma q.P0 q.M0 q.T * q.T / q.gamma := by
+  epv_semi_rad_tree [edRho, edB]
+
+private theorem ed_node_Fr (q : RadED.P) :
+    RadED.Fr1 q = edFr q.C0 q.M0 (RadED.sigma_t q)
+      (edDxdT q.gamma q.P0 q.C0 q.M0 (RadED.sigma_t q) (edRho q.gamma q.P0 q.M0 q.T) q.T) (edRho q.gamma q.P0 q.M0 q.T) q.T := by
+  epv_semi_rad_tree [edRho, edB, edFr, edDxdT]
+
 /-- the ED profile node at temperature q.T (generated model RadED) in the clean variables of Lemmas/RadShock.lean -/
 theorem ed_node (q : RadED.P) :
     RadED.Tm1 q = q.T ∧ RadED.Density1 q = edRho q.gamma q.P0 q.M0 q.T ∧
       RadED.Speed1 q = q.M0 / edRho q.gamma q.P0 q.M0 q.T ∧
       RadED.Pressure1 q = edRho q.gamma q.P0 q.M0 q.T * q.T / q.gamma ∧
       RadED.Fr1 q = edFr q.C0 q.M0 (RadED.sigma_t q)
-        (edDxdT q.gamma q.P0 q.C0 q.M0 (RadED.sigma_t q) (edRho q.gamma q.P0 q.M0 q.T) q.T) (edRho q.gamma q.P0 q.M0 q.T) q.T := by
-  epv_semi_rad_trees [edRho, edB, edFr, edDxdT]
+        (edDxdT q.gamma q.P0 q.C0 q.M0 (RadED.sigma_t q) (edRho q.gamma q.P0 q.M0 q.T) q.T) (edRho q.gamma q.P0 q.M0 q.T) q.T :=
+  ⟨ed_node_Tm q, ed_node_Density q, ed_node_Speed q, ed_node_Pressure q, ed_node_Fr q⟩
 
 theorem ed_sigma_form (q : RadED.P) :
     RadED.sigma_t q = q.sigA * edRho q.gamma q.P0 q.M0 q.T ^ q.expDensity_abs * q.T ^ q.expTemp_abs
